@@ -106,8 +106,8 @@ CLAIMS = {
     ),
     "C19": (
         "alias/taint analysis of the projection helpers, kind guard, loop-nesting rule, unconditional-store and non-empty-array rules; abstract execution of the selectors (location parts); who-may-write rule for the projection; abstract execution of Query._select (containers changed in place) on twelve (match, selections) cases x three styles against the statement written down on its own; the shape rules defer to it when the shape they read is not there",
-        "document not written through, non-containers produce nothing, flat projection order, selected values always stored, only non-empty integer-keyed levels become arrays",
-        "structure of relative and root projections as a whole (rank compaction, no extra leaves)",
+        "document not written through, non-containers produce nothing, flat projection order, selected values always stored, only non-empty integer-keyed levels become arrays; on twelve covering (match, selections) cases x three styles: the projection equals the statement (rank compaction, no extra leaves, selection order), a second projection gives the same value, the document is the same objects afterwards",
+        "structure of relative and root projections for every document and selection (decided on the covering cases only)",
     ),
     "C20": (
         "static part typing at match-construction sites, pass-through rules for pointer construction and patch builders, addressing rule in test/replace/remove; abstract execution of the selectors on covering small documents (typed location parts); abstract execution of match.pointer() -> test / replace / remove -> apply on every location of a covering document",
